@@ -200,6 +200,7 @@ func cmdCheck(args []string) int {
 	only := fs.String("only", "", "verify only functions whose key contains this")
 	dump := fs.String("dump", "", "dump SMT scripts of failed obligations to this dir")
 	verbose := fs.Bool("v", false, "")
+	dumpAll := fs.String("dumpall", "", "dump the SMT scripts of all obligations to this dir")
 	noEvidence := fs.Bool("no-evidence", false, "")
 	fs.Parse(args)
 	if *prop == "" {
@@ -334,6 +335,10 @@ func cmdCheck(args []string) int {
 			defer wg.Done()
 			defer func() { <-sem }()
 			j.o.Script = j.v.buildScript(j.o)
+			if *dumpAll != "" {
+				os.MkdirAll(*dumpAll, 0o755)
+				os.WriteFile(filepath.Join(*dumpAll, mangle(j.o.Name)+".smt2"), []byte(j.o.Script), 0o644)
+			}
 			if j.o.Kind == "atomic" {
 				st := "unsat"
 				if j.o.Goal == "false" {
@@ -351,6 +356,15 @@ func cmdCheck(args []string) int {
 				to = 3
 			}
 			j.o.Res = Solve(j.o.Script, to, eng.allSolv && j.o.Expect == "unsat")
+			if j.o.Kind == "cover" && j.o.Res.Status == "unsat" && j.o.Before != nil {
+				// unreachable after the contract: was it reachable before?
+				b := j.o.Before
+				b.Script = j.v.buildScript(b)
+				b.Res = Solve(b.Script, 3, false)
+				if b.Res.Status == "unsat" {
+					j.o.Res.Status = "dead-code" // legitimately unreachable, not caused by the contract
+				}
+			}
 		}(j)
 	}
 	wg.Wait()
@@ -378,7 +392,7 @@ func cmdCheck(args []string) int {
 			if !ok {
 				o.Text += " — VACUOUS: assumptions are contradictory"
 			}
-			if o.Res.Status == "sat" || o.Res.Status == "unknown" || o.Res.Status == "timeout" {
+			if o.Res.Status == "sat" || o.Res.Status == "unknown" || o.Res.Status == "timeout" || o.Res.Status == "dead-code" {
 				ok = true
 			}
 		} else {
